@@ -2006,8 +2006,9 @@ Proof.
   exists kf_hyps, 2%nat, kf_subs, kf_state. split; [reflexivity|]. split; [reflexivity|].
   split; [exists kf_schedule; vm_compute; reflexivity|].
   split; [apply quiescentb_sound; vm_compute; reflexivity|].
-  eexists. exists kf_path. split; [vm_compute; reflexivity|]. cbn.
-  repeat split; try (vm_compute; reflexivity). vm_compute. discriminate.
+  eexists. exists kf_path. split; [vm_compute; reflexivity|].
+  split; [vm_compute; reflexivity|]. split; [vm_compute; reflexivity|]. split; [vm_compute; reflexivity|].
+  split; [vm_compute; reflexivity|]. split; [vm_compute; reflexivity|]. vm_compute. discriminate.
 Qed.
 
 (** Non-vacuity of [stream_invariant] / [stream_converges]: a reachable,
@@ -2031,7 +2032,9 @@ Example stream_converges_example :
 Proof.
   split; [split; reflexivity|]. split; [exists ex_schedule; vm_compute; reflexivity|].
   split; [apply quiescentb_sound; vm_compute; reflexivity|].
-  eexists. split; [vm_compute; reflexivity|]. cbn. repeat split; vm_compute; reflexivity.
+  eexists. split; [vm_compute; reflexivity|].
+  split; [vm_compute; reflexivity|]. split; [vm_compute; reflexivity|]. split; [vm_compute; reflexivity|].
+  split; [vm_compute; reflexivity|]. split; vm_compute; reflexivity.
 Qed.
 
 (** ** The sync marker: exactly one, after the snapshot (first for updates_only) *)
@@ -2203,7 +2206,7 @@ Proof.
     destruct (nth_error (s_qs sb) k) as [q|] eqn:Hq; [|discriminate]. inversion Hf; subst sb'.
     eapply YAll_sub_step; eauto. intros [Y0 Y1 Y2 Y3] _. constructor; auto; cbn; rewrite Hpc in *.
     + intros Hu. destruct (Y2 Hu) as [[] _].
-    + intros Hu. destruct (Y3 Hu) as [A B]. split; auto. intros l Hl. apply in_app_iff in Hl as [Hl|Hl]; auto.
+    + intros Hu. destruct (Y3 Hu) as [A B]. split; [exact A|]. intros l Hl. apply in_app_iff in Hl as [Hl|Hl]; [right; exact (B l Hl)|left; exact Hl].
   - (* LVisit *)
     apply with_sub_inv in Hstep as (sb & sb' & Hsb & Hf & ->).
     destruct (s_pc sb) as [| |k todo|] eqn:Hpc; try discriminate.
@@ -2223,15 +2226,15 @@ Proof.
     + exact Y0.
     + intros l Hl. change (In (ILeaf l) (iq sb1)) in Hl. apply In_iq_insert in Hl as [Hl|[= ->]]; auto. congruence.
     + cbn. intros Hu. rewrite Hpc in Y2. destruct (Y2 Hu) as [[] _].
-    + cbn. intros Hu. rewrite Hpc in Y3. destruct (Y3 Hu) as [A B].
-      change (trace st _) with (trace st sb1). unfold sb1 at 1. rewrite Et. split.
+    + cbn [s_pc s_uo s_snap set_queue set_pc]. intros Hu. rewrite Hpc in Y3. destruct (Y3 Hu) as [A B].
+      change (trace st (set_queue _ _)) with (trace st sb1). unfold sb1 at 1. rewrite Et. split.
       * rewrite in_app_iff. intros [H|H]; auto. destruct He' as [[-> _]| ->]; [contradiction|].
         destruct H as [H|[]]. cbn in H. rewrite Hp0 in H. discriminate.
       * intros l Hl. destruct (Nat.eq_dec l l0) as [->|Hne].
-        -- right. exists p0. split; auto. rewrite <- Et. exact Hin0.
+        -- right. exists p0. split; [exact Hp0|exact Hin0].
         -- destruct (B l Hl) as [Hin|(p & Hp & Hin)].
            ++ left. apply filter_In. split; auto. apply negb_true_iff, Nat.eqb_neq. exact Hne.
-           ++ right. exists p. split; auto. apply in_app_iff. auto.
+           ++ right. exists p. split; auto. unfold sb1. rewrite Et. apply in_app_iff. auto.
   - (* LWalkEnd *)
     apply with_sub_inv in Hstep as (sb & sb' & Hsb & Hf & ->).
     destruct (s_pc sb) as [| |k [|]|] eqn:Hpc; try discriminate. inversion Hf; subst sb'.
@@ -2249,12 +2252,12 @@ Proof.
     + exact Y0.
     + intros l Hl. change (In (ILeaf l) (iq sb1)) in Hl. apply In_iq_insert in Hl as [Hl|Hl]; auto. discriminate.
     + cbn. intros Hu. rewrite Hpc in Y2. destruct (Y2 Hu) as [[] _].
-    + cbn. intros Hu. rewrite Hpc in Y3. destruct (Y3 Hu) as [A B].
-      change (trace st _) with (trace st sb1). unfold sb1. rewrite Et.
+    + cbn [s_pc s_uo s_snap set_queue set_pc]. intros Hu. rewrite Hpc in Y3. destruct (Y3 Hu) as [A B].
+      change (trace st (set_queue _ _)) with (trace st sb1). unfold sb1. rewrite Et.
       destruct He' as [[-> Hin]| ->].
       * exfalso. apply A. unfold trace. apply in_app_iff. right. apply (In_tag_item st ISync). exact Hin.
-      * exists (trace st sb), []. split; auto. split; auto. split; [intros []|].
-        intros l Hl. destruct (B l Hl) as (p & Hp & Hin). exists p. auto.
+      * exists (trace st sb), []. split; [reflexivity|]. split; [exact A|]. split; [intros []|].
+        intros l Hl. destruct (B l Hl) as (p & Hp & Hin). exists p. split; auto.
   - (* LDeq *)
     apply with_sub_inv in Hstep as (sb & sb' & Hsb & Hf & ->).
     destruct (is_registered sb && negb (s_end sb)) eqn:Hg; [|discriminate].
@@ -2300,7 +2303,6 @@ Proof.
     apply (YInv_append st st sb sb' []); auto.
     + unfold trace. rewrite Eiq, Eso, app_nil_r. reflexivity.
     + rewrite Eiq. apply (y_wf _ _ Y0).
-    + intros H. exfalso. apply H. reflexivity.
   - (* LTimeout *)
     apply with_sub_inv in Hstep as (sb & sb' & Hsb & Hf & ->).
     destruct (s_end sb) eqn:He; [discriminate|].
